@@ -248,6 +248,16 @@ class C01(Prop):
             b = rng.choice(pick)
             off = rng.choice([0, 12, len(b) - 1, len(b), len(b) + 1, rng.randint(0, len(b)), rng.randint(0, 70000)])
             cases.append(Case("k%d" % i, "%s,%s,%d" % (rng.choice("KN"), hx(b), max(0, off)), {"family": "KN", "len": len(b)}))
+        # more records than any 16-bit count: every count is legal, their sum is not a u16 (implementation only: the
+        # model reads lists by position, quadratic in a packet of this size; the independent decoder says what is expected)
+        for j, (an, ns, ar) in enumerate([(40000, 30000, 0), (65535, 1, 0), (0, 65535, 1), (30000, 35535, 0), (21846, 21845, 21845)]
+                                         if tier == "quick" else
+                                         [(40000, 30000, 0), (65535, 1, 0), (0, 65535, 1), (30000, 35535, 0), (21846, 21845, 21845),
+                                          (65535, 65535, 65535), (1, 65535, 0), (32768, 32768, 0), (32767, 32768, 0)]):
+            rec = b"\x00" + struct.pack(">HHIH", 99, 1, 7, 0)
+            b = struct.pack(">HHHHHH", 0x1234, 0x8180, 1, an, ns, ar) + b"\x01a\x00" + struct.pack(">HH", 1, 1) + rec * (an + ns + ar)
+            cases.append(Case("many%d" % j, "P," + hx(b), {"family": "P/many-records", "len": len(b), "impl_only": True,
+                                                             "expect_ok": decode_or_none(b) is not None}))
         cases.append(Case("k-empty", "K,-,0", {"family": "KN", "len": 0}))
         cases.append(Case("n-empty", "N,-,0", {"family": "KN", "len": 0}))
         no = 300 if tier == "quick" else 6000
@@ -274,6 +284,8 @@ class C01(Prop):
         if case.line.startswith("P,"):
             if o.startswith("OK:") and " same=1" not in o:
                 return "parse returned Ok but the parsed packet no longer holds exactly the input bytes"
+            if case.meta.get("expect_ok") and not o.startswith("OK"):
+                return "a well-formed packet with %d bytes (more than 65535 records in all, each count legal) was not accepted: %s" % (case.meta.get("len", 0), o[:80])
         if o.startswith("BADOFFSET"):
             return "cursor primitive left offset beyond the end of the buffer: " + o
         return None
@@ -397,6 +409,15 @@ class C18(Prop):
             b = struct.pack(">HHHHHH", 1, 0x0100, 1, 0, 0, 1) + G.wire_name([b"a"]) + struct.pack(">HH", 1, 1)
             b += b"\0" + struct.pack(">HHIH", 41, 4096, 0, nopt * 4) + struct.pack(">HH", 10, 0) * nopt
             out.append(("options", b))
+            # half the bytes in the options of an OPT record that comes first (and once in the middle), the other half in records
+            # after it: m*r steps if anything about the options is looked at again per later record
+            m, r = max(1, (n - 40) // 8), max(1, (n - 40) // 30)
+            for lead in (0, 2):
+                b = struct.pack(">HHHHHH", 1, 0x8180, 1, 0, 0, lead + 1 + r) + G.wire_name([b"a"]) + struct.pack(">HH", 1, 1)
+                b += (b"\0" + struct.pack(">HHIH", 1, 1, 1, 4) + b"\1\2\3\4") * lead
+                b += b"\0" + struct.pack(">HHIH", 41, 4096, 0, m * 4) + struct.pack(">HH", 10, 0) * m
+                b += (b"\0" + struct.pack(">HHIH", 1, 1, 1, 4) + b"\1\2\3\4") * r
+                out.append(("options-then-records", b))
             # a run of K back-to-back pointers (each to the previous one) hidden in opaque record data, R records naming through its head:
             # K*R steps if pointer-to-pointer hops ever escape the 16-hop budget
             K, R = max(1, (n - 40) // 4), max(1, (n - 40) // 32)
@@ -1087,6 +1108,24 @@ class C05(Prop):
                 k += 1
             cases.append(Case("u%d" % k, "U,%s,%d" % (hx(plain), 12), {"family": "stable", "pkt": plain.hex(), "off": 12}))
             k += 1
+        # the largest expansions there are: a maximal question name, then many records whose owner name and whose data name(s) are
+        # bare pointers to it (NS / CNAME / PTR: 16 bytes become 2 * 255 + 10; MX, SOA alike) - output up to 64 KB from 2 KB
+        combos = [(255, 2, 120), (255, 5, 125), (255, 12, 118), (254, 12, 124), (255, 15, 60), (255, 6, 70), (200, 2, 125)] if tier == "quick" else \
+                 [(wl, t, n) for wl in (255, 254, 220, 128) for t in (2, 5, 12, 15, 6) for n in (40, 117, 118, 125, 128)]
+        for (wl, t, n) in combos:
+            qn = G.wire_name(G.name_of_wire_len(wl))
+            rd = {2: b"\xc0\x0c", 5: b"\xc0\x0c", 12: b"\xc0\x0c", 15: b"\x00\x0a\xc0\x0c", 6: b"\xc0\x0c\xc0\x0c" + bytes(20)}[t]
+            b = struct.pack(">HHHHHH", 9, 0x8180, 1, n, 0, 0) + qn + struct.pack(">HH", 1, 1) + \
+                (b"\xc0\x0c" + struct.pack(">HHIH", t, 1, 5, len(rd)) + rd) * n
+            m = decode_or_none(b)
+            if m is None:
+                continue
+            plain, bounds = G.encode_plain(m)
+            if len(plain) > 65535:
+                continue
+            for off in (12, sorted(bounds)[-1], sorted(bounds)[len(bounds) // 2]):
+                cases.append(Case("u%d" % k, "U,%s,%d" % (hx(b), off), {"family": "max-inflation", "pkt": b.hex(), "off": off}))
+                k += 1
         return cases
 
     def oracle(self, case, io):
@@ -1359,6 +1398,20 @@ class C14(Prop):
             cases.append(Case("rb%d" % k, "\t".join(["P," + hx(BASE_RESPONSE), "W,an,0,*M%s.n.r" % hx(raw), "fp"]),
                               {"family": "readback", "name": nm.hex(), "raw": raw.hex()}))
             k += 1
+        # read back through a record built from the text (RR::new) and inserted: the path that takes every byte the conversion
+        # accepts, not only those the name setter and the parser allow (backslash, quote, space, control bytes, 127, 128, upper case)
+        odd = [b"a", b"B", b"\\", b" ", b'"', b"\x01", b"\x7f", b"\x80", b"-", b"_", b"@", b"$", b"(", b";", b"0"]
+        texts = [x for x in odd] + [x + y for x in odd for y in odd]
+        for _ in range(300 if tier == "quick" else 6000):
+            n = rng.choice([3, 4, 5, 8, 12, 30, 62])
+            t = b"".join(rng.choice(odd + [b"c", b"D"]) for _ in range(n))
+            parts = [t]
+            for _ in range(rng.randint(0, 3)):
+                parts.append(b"".join(rng.choice(odd + [b"e", b"F"]) for _ in range(rng.randint(1, 10))))
+            texts.append(b".".join(parts) + (b"." if rng.random() < 0.4 else b""))
+        for j, nm in enumerate(texts):
+            cases.append(Case("ri%d" % j, "\t".join(["P," + hx(BASE_RESPONSE), "IR,an,%s,16,3" % hx(nm), "W,an,1,*n.r"]),
+                              {"family": "readback-insert", "name": nm.hex()}))
         return cases
 
     def oracle(self, case, io):
@@ -1388,6 +1441,21 @@ class C14(Prop):
             else:
                 if T.ldh_name_ok(nm) and G.wire_len(T.expected_labels(nm, zl)) <= 253:
                     return "LDH name %r (wire length <= 253, labels <= 62) was rejected: %s" % (nm[:60], o)
+            return None
+        if case.meta["family"] == "readback-insert":
+            if not io[1].startswith("OK"):
+                if T.ldh_name_ok(nm) and G.wire_len(T.expected_labels(nm, None)) <= 253:
+                    return "a record with the LDH owner name %r could not be built and inserted: %s" % (nm[:60], io[1][:100])
+                return None
+            exp_n = nm[:-1] if nm.endswith(b".") else nm
+            try:
+                raw = G.wire_name(T.expected_labels(nm, None))
+            except Exception:
+                return None
+            last = io[2].rstrip("]").split("|")[-1].strip()
+            exp = "n=%s r=%s/%d" % (hx(exp_n.lower()), hx(raw), len(raw))
+            if last != exp:
+                return "record built with the name %r and inserted reads back as %s, expected %s" % (nm[:60], last[:200], exp[:200])
             return None
         # read back
         exp_n = nm[:-1] if nm.endswith(b".") else nm
@@ -1737,6 +1805,16 @@ class HistProp(Prop):
                 if "err" in self.clauses and is_err and a0 is not None:
                     if a1 is None or a1.key() != a0.key():
                         fails.append(("failed-op-changed-message", "%s reported %s but the packet no longer decodes to the same message" % (what, o)))
+                # not one byte moved: then nothing else of the object may have changed either (offsets, counts, EDNS summary, the
+                # may-be-compressed flag - a flag left set makes every later operation parse bytes it used to take as they are)
+                # (the decompress-first prologue of a failing insertion / cursor operation may clear the flag on bytes that had no pointer)
+                def _vd(x):
+                    return dict(t.split("=", 1) for t in x[2:-1].split(" ") if "=" in t)
+                if "err" in self.clauses and is_err and b1 == prev_b and v.startswith("v[") and io[base - 4].startswith("v[") and v != io[base - 4] and \
+                        ({k_: x_ for k_, x_ in _vd(v).items() if k_ != "mc"} != {k_: x_ for k_, x_ in _vd(io[base - 4]).items() if k_ != "mc"} or
+                         (_vd(io[base - 4]).get("mc"), _vd(v).get("mc")) == ("0", "1")):
+                    fails.append(("failed-op-changed-object", "%s reported %s and left the bytes as they were, but the object changed: %s before, %s after" % (
+                        what, o, io[base - 4][:200], v[:200])))
             elif st.expect_msg is not None and "effect" in self.clauses:
                 if a1 is None:
                     fails.append(("effect", "%s: the resulting bytes do not decode to any message" % what))
@@ -2126,6 +2204,15 @@ class C10(HistProp):
                 bld.question_walk_op("X")
             for _ in range(rng.randint(1, 2)):
                 bld.insert_op()
+            if rng.random() < 0.5:
+                # a whole-packet rename of an object the parser would refuse is itself refused (the renamed packet is parsed
+                # again): nothing may have changed, and the object must go on working - recompute, insertions, walks
+                tgt = [bld.fresh_label(), b"renamed"]
+                src = [b"nomatch", b"example"] if rng.random() < 0.5 else [b"example"]
+                bld.steps.append(H.Step("rn,%s,%s,%d" % (hx(G.wire_name(tgt)), hx(G.wire_name(src)), rng.randrange(2)), "rename-refused", None, None, "any"))
+                bld.recompute_op()
+                if rng.random() < 0.5:
+                    bld.insert_op()
             for _ in range(rng.randint(1, 3)):
                 bld.walk_op(mode="single", si=rng.randrange(3))
             cases.append(self.finish(k0 + i, first, bld, "no-question"))
@@ -2430,14 +2517,22 @@ class C06(Prop):
             "not longer than the input, same header / record sequence / contents with names equal up to ASCII case and the question name "
             "byte-identical, decompression gives back the input up to name case. Non-trivial: output shorter than input; distinct = "
             "distinct packet.")
-    strength = ("PARTIAL: proved at packet level (unbounded): for every accepted packet that decompression leaves unchanged, compress "
-                "succeeds (no error, none of the model's Panic outcomes) and returns a packet no longer than its input "
-                "(C06_succeeds_and_never_grows); for one name: emission = first k labels verbatim + root or a pointer to an offset the "
-                "dictionary holds for a candidate equal to the remaining suffix up to ASCII case, never longer than the name, the dictionary "
-                "grows only by (output offset where a suffix was just written, that suffix) below 16384 (C06_name_emission, "
-                "C06_dictionary_comparison); output starts with the input's header (C06_header_kept). The remaining clauses (accepted, "
-                "same records up to name case, round trip, every pointer designates its suffix in the output) are decided each run by the "
-                "correspondence and the reference-decoder oracle. Known finding: pointer chains deeper than 16 hops.")
+    strength = ("proved at packet level, unbounded over accepted packets that decompression leaves unchanged (every accepted pointer-free "
+                "packet, by C05): compress succeeds (no error, none of the model's Panic outcomes) and returns a packet no longer than its "
+                "input (C06_succeeds_and_never_grows) made of the input's header, the question name byte for byte, the input's question "
+                "type and class, and record by record - answers, authority, additional with OPT - an owner name that decodes to the input's "
+                "labels up to ASCII case, the input's type / class / TTL bytes, a data-length field equal to the length of what follows, and "
+                "the same data, names inside NS / CNAME / PTR / MX / SOA data again decoding to the same labels up to case (C06_content); "
+                "names are decoded by a reference decoder that follows any number of strictly backward pointers, is a function of the "
+                "offset (C06_reference_decoder_is_a_function) and reads what the parser's name policy reads wherever that policy accepts "
+                "(C06_reference_decoder_reads_policy_names) - so every pointer designates, in the output, a name equal up to case to the "
+                "suffix it stands for; whenever the parser accepts the output, its declarative reading is the input's up to the case of "
+                "names, section by section and record by record, and its decompression is the pointer-free encoding of that reading "
+                "(C06_same_message: same records + round trip up to case). Per name: C06_name_emission, C06_dictionary_comparison. "
+                "NOT proved, because false: that the parser always accepts the output - nested suffixes can build chains of more than 16 "
+                "pointers (known finding chain-depth, reported each run from a generated witness); the theorem C06_same_message has the "
+                "acceptance as a hypothesis. Tie to the code: correspondence of the executable compress with Compress::compress plus "
+                "the reference-decoder oracle on every generated packet.")
     assumptions = ["bytes < 256", "input is pointer-free (documented precondition: compress panics on an already compressed name)"]
 
     def gen(self, rng, tier):
@@ -2501,13 +2596,19 @@ class C07(Prop):
             "variants, partial-label near misses, non-matching names, identity (target = source), targets that push a name past 255 bytes; "
             "RR: replace_raw on single names. Oracle: abstract rename on the decoded message (gen/hist.py apply_rename). Non-trivial: the "
             "source matches at least one name; distinct = distinct (packet, names, mode).")
-    strength = ("PARTIAL: proved for one name, unbounded over all pointer-free names given by their labels and all non-root sources/targets: "
+    strength = ("proved for one name, unbounded over all pointer-free names given by their labels and all non-root sources/targets: "
                 "replace_raw replaces the trailing labels by the target's labels exactly when they equal the source's labels up to ASCII case "
                 "(whole name in exact mode, any label-aligned suffix in suffix mode), fails instead of exceeding 255 bytes, and reports no-match "
                 "in every other case (C07_replaces_matching_suffix, C07_keeps_other_names, C07_identity; the byte loops rr_walk / rr_match / "
-                "all_eq_ci are characterised in Proofs/RenameSpec.v), plus the shape of every replacement (C07_replace_raw_shape). The "
-                "packet-level statement (which names are visited, everything else kept) is decided each run by the correspondence and the "
-                "abstract-rename oracle. Known finding: pointer chains deeper than 16 hops (shared with C06).")
+                "all_eq_ci are characterised in Proofs/RenameSpec.v), plus the shape of every replacement (C07_replace_raw_shape). Proved at "
+                "packet level, unbounded over accepted packets (compressed or not) and sources / targets given by labels (C07_packet): the "
+                "renamer either reports 'invalid name' or returns the input's header, the question with its name renamed by that rule and "
+                "written in full, and record by record - answers, authority, additional with OPT - the owner name renamed, the same type / "
+                "class / TTL bytes, a data length equal to the length of what follows, the same data with the names inside NS / CNAME / PTR / "
+                "MX / SOA data renamed and every other byte copied; names of the output read by the reference decoder of C06 and compared "
+                "up to case; no Panic outcome. PARTIAL: the exact condition of the error at packet level (some renamed name exceeds 255 "
+                "bytes) is stated per name only; acceptance of the output has the known finding chain-depth (shared with C06). Tie to the "
+                "code: correspondence plus the abstract rename applied to the independently decoded message, on every generated packet.")
     assumptions = ["bytes < 256", "source and target are well-formed pointer-free non-root names (property precondition)"]
 
     def gen(self, rng, tier):
@@ -2878,6 +2979,18 @@ class C16(Prop):
                 if i != j:
                     cases.append(Case("h%d" % k, "H,2,0:f%d.1:f%d.0:r.1:r.0:r" % (i, j), {"family": "pairs"}))
                     k += 1
+        # the error slot handed to a failing call still holds the pointer another thread obtained (an out-parameter a C caller did not
+        # clear, e.g. a session structure that moved from one thread to another): what the slot held must not matter, including when
+        # the new failure has the very text of the one the slot pointed to (step x = such a call)
+        for a in range(13):
+            for b in range(13):
+                if a != b:
+                    st = rng.choice([["0:f%d" % a, "1:x%d" % a, "0:f%d" % b, "1:r", "0:r"],
+                                     ["0:f%d" % a, "1:x%d" % a, "1:r", "0:f%d" % b, "1:r", "0:r", "1:x%d" % b, "0:f%d" % a, "1:r", "0:r"],
+                                     ["0:f%d" % a, "1:x%d" % b, "0:r", "1:r", "2:x%d" % b, "1:f%d" % a, "2:r", "1:r", "0:r"]])
+                    n_thr = 1 + max(int(x.split(":")[0]) for x in st)
+                    cases.append(Case("h%d" % k, "H,%d,%s" % (n_thr, ".".join(st)), {"family": "handed-slot"}))
+                    k += 1
         # thread 0 fails and stays alive, n short-lived threads then fail one after the other, thread 0 reads: a table of slots handed out
         # by a wrapping counter of any size up to n is detected (powers of two and their neighbours)
         for n in ((300, 4097) if tier == "quick" else (300, 4097, 65535, 65536, 65537, 131073)):
@@ -2910,7 +3023,7 @@ class C16(Prop):
             if a[0] == "n":
                 if tok != "rc=-1":
                     return "failing table call (no error pointer) returned %s instead of -1" % tok
-            elif a[0] == "f":
+            elif a[0] in "fx":
                 last[t] = texts[int(a[1:]) % 13]
                 if tok != "rc=-1":
                     return "failing table call returned %s instead of -1" % tok
@@ -2930,9 +3043,9 @@ class C16(Prop):
         lastfail = {}
         for i, st in enumerate(steps):
             t, a = st.split(":")
-            if a[0] == "f":
+            if a[0] in "fx":
                 lastfail[t] = i
-            elif t in lastfail and any(s.split(":")[0] != t and s.split(":")[1][0] == "f" for s in steps[lastfail[t] + 1:i]):
+            elif a[0] == "r" and t in lastfail and any(s.split(":")[0] != t and s.split(":")[1][0] in "fx" for s in steps[lastfail[t] + 1:i]):
                 return hash(case.line)
         return None
 
@@ -3091,12 +3204,31 @@ class C17(Prop):
                                   "R,%s,%s,%s,1" % (hx(rng.choice(comp + plain)), hx(G.wire_name([b"new", b"name"])), hx(G.wire_name([rng.choice([b"com", b"org", b"example"])])))])
         for i in range(n):
             add("mixed", ops(), ops())
+        # the public name emitter with a caller-owned dictionary (Compress::copy_compressed_name + SuffixDict): a sequence of names
+        # through one dictionary, alone and with a second dictionary used on the same thread between the calls - for other names and
+        # for the same names (what a dictionary remembers must be its own)
+        for i in range(40 if tier == "quick" else 4000):
+            tld = rng.choice([b"org", b"com", b"net"])
+            zone = [rng.choice([b"example", b"zone", b"test-%d" % rng.randrange(9)]), tld]
+            names = [zone] + [[rng.choice([b"www", b"mail", b"a", b"NS1"])] + (zone if rng.random() < 0.8 else [b"other", tld]) for _ in range(rng.randint(1, 5))]
+            if rng.random() < 0.2:
+                names += [[b"h%d" % j, b"fill%d" % j, b"x%d" % j] for j in range(34)] + [[b"again"] + zone]
+            other = rng.choice([[b"another", b"org"], [b"www"] + zone, zone, [b"mail", b"other", tld]])
+            cases.append(Case("p%d" % k, "DD,%s,%s" % (".".join(hx(G.wire_name(nm)) for nm in names), hx(G.wire_name(other))), {"family": "two-dictionaries"}))
+            k += 1
         return cases
 
     def oracle(self, case, io):
         w = no_crash(io)
         if w:
             return w
+        if case.line.startswith("DD,"):
+            if not io[0].startswith("DD:"):
+                return "name emission with a caller-owned dictionary did not complete: " + io[0][:200]
+            alone, inter = io[0][3:].split("|")
+            if alone != inter:
+                return "what a dictionary emits depends on another dictionary used on the same thread in between: alone %s, interleaved %s" % (alone[:200], inter[:200])
+            return None
         if not io[0].startswith("SAME:"):
             return "result depends on earlier or concurrent calls: " + io[0][:300]
         return None
@@ -3105,6 +3237,8 @@ class C17(Prop):
         return "impure"
 
     def nontrivial(self, case, io):
+        if case.line.startswith("DD,"):
+            return hash(case.line) if io and "c0" in io[0] else None
         if io and io[0].startswith("SAME:OK"):
             if case.line.startswith("HL|"):
                 return hash(case.line)
